@@ -79,9 +79,9 @@ func firstCall(fn *ssa.Function, match func(*core.Site) bool) *core.Site {
 func checkRecoveryLoad(c *core.Ctx, rule string) {
 	if init := c.MustFn(rule, "(*coreV2/minter.Blockchain).initState"); init != nil {
 		good := false
-		for _, s := range core.Sites(init) {
+		for _, s := range c.GroupSites(init) {
 			if s.Callee == core.PkgState+".NewStateV3" {
-				for _, o := range core.Origins(s.Arg(0)) {
+				for _, o := range core.Origins(c.CallerArg(s.Arg(0))) {
 					if call, ok := o.(*ssa.Call); ok && methodNameOfCall(call) == "GetLastHeight" {
 						good = true
 					}
